@@ -481,11 +481,22 @@ fn generate(seed: u64, n_cases: usize, tier: &str) {
             }
         }
     }
-    for _ in 0..n_cases {
+    // the input-domain family (cases `d<n>`, own PRNG stream, one per 10 random cases) runs the same loop around the
+    // timestamps the random cases never come near: the epoch itself (0), 1 ns, sub-millisecond instants, instants BEFORE
+    // 1970 (negative nanosecond counts: `DateTime<Utc>` is signed) and -1 ns
+    let mut drng = Rng::new(seed ^ 0x444f_4d4b);
+    let n_dom = n_cases / 10;
+    for case_no in 0..n_cases + n_dom {
+        let dom = case_no >= n_cases;
+        let rng = if dom { &mut drng } else { &mut rng };
         id += 1;
-        out.case(format!("r{id}"));
+        out.case(if dom { format!("d{}", case_no - n_cases + 1) } else { format!("r{id}") });
         // few distinct timestamps per case, so that ties and out-of-order events are frequent
-        let centre = BASE + rng.range(0, 1000) * 1_000_000;
+        let centre = if dom {
+            *rng.pick(&[0i64, 0, 1, -1, 999_999, -999_999, 1_000_000, -1_000_000_000, -86_400_000_000_000, 30_000_000_000])
+        } else {
+            BASE + rng.range(0, 1000) * 1_000_000
+        };
         let mut pool = vec![centre];
         for _ in 0..rng.range(2, 5) {
             let off = *rng.pick(&OFFSETS);
@@ -498,7 +509,7 @@ fn generate(seed: u64, n_cases: usize, tier: &str) {
             match rng.below(100) {
                 0..=64 => {
                     let op = if rng.chance(10) { "evc" } else { "ev" };
-                    let ev = gen_event(&mut rng, &pool);
+                    let ev = gen_event(rng, &pool);
                     out.line(format!("{op} {ev}"));
                 }
                 65..=79 => out.line("time"),
